@@ -5,9 +5,13 @@
 (* Template (harness/checks/c11.py base_net mirrors it one to one):                                                  *)
 (*   bus 1 (20 kV, ext_grid with s_sc_max_mva / rx_max / r0x0_max / x0x_max), bus 2, bus 3 (20 kV), bus 4 (0.4 kV);  *)
 (*   line 1 = 1-2, line 2 = 2-3, line 3 = 1-3 (r0/x0/c0 given);  one transformer 3 -> 4 with vector group cfg.vg     *)
-(*   and vk0/vkr0/mag0/mag0_rx/si0_hv_partial.                                                                       *)
-(* A configuration c = [vg, topo, elems]:                                                                            *)
+(*   and vk0/vkr0/mag0/mag0_rx/si0_hv_partial;  optionally bus 5, a busbar SECTION at the voltage level of its host  *)
+(*   bus, joined to the host by a bus-bus switch (closed: host and section are ONE electrical node; open: the        *)
+(*   section is isolated);  optionally further ext_grid rows (same short-circuit data) on other 20 kV buses.         *)
+(* A configuration c = [vg, topo, cpl, egs, elems]:                                                                  *)
 (*   topo  : which lines / whether the transformer are in service (TopoLines, TopoTrafo),                            *)
+(*   cpl   : [host, state]  state "none" (no bus 5, no switch) | "closed" | "open",                                  *)
+(*   egs   : the rows of net.ext_grid IN TABLE ORDER, each [bus, ins] (ins = in_service),                            *)
 (*   elems : a sequence of element slots [kind, bus, conn, pat, mod];  kind "none" = empty slot,                     *)
 (*           conn = the element's `type` column (wye / delta), pat = abstract per-phase LEVEL pattern,               *)
 (*           mod  = "oos" (in_service = False) | "half" (scaling = 0.5) | "none".                                    *)
@@ -15,8 +19,8 @@
 (* no concrete float appears in the model.                                                                           *)
 EXTENDS Integers, Sequences, FiniteSets
 
-Bus == 1..4
-SlackBus == 1
+Bus == 1..5
+BusSec == 5                                  \* the busbar section (exists iff c.cpl.state # "none")
 Ph == 1..3                                   \* phases a, b, c
 Lines == 1..3
 LineEnds == <<<<1, 2>>, <<2, 3>>, <<1, 3>>>>  \* from_bus, to_bus
@@ -38,12 +42,38 @@ TopoTrafo(t) == CASE t = "toff" -> "off"                            \* trafo row
 TopoNames == {"radial", "ring", "cut", "toff", "notrafo"}
 EdgesT(t) == {LineEnds[l] : l \in {l \in Lines : TopoLines(t)[l]}}
                \cup (IF TopoTrafo(t) = "on" THEN {<<TrafoHv, TrafoLv>>} ELSE {})
+RECURSIVE Grow(_, _)
+Grow(E, S) == LET N == S \cup {b \in Bus : \E e \in E : (e[1] \in S /\ e[2] = b) \/ (e[2] \in S /\ e[1] = b)}
+              IN IF N = S THEN S ELSE Grow(E, N)
+
+\* ---- busbar section and bus fusion ---------------------------------------------------------------------------------
+NoCpl == [host |-> 1, state |-> "none"]
+HasSec(c) == c.cpl.state # "none"
+NBus(c) == IF HasSec(c) THEN 5 ELSE 4
+Buses(c) == 1..NBus(c)
+Level(c, b) == IF (IF b = BusSec THEN c.cpl.host ELSE b) = TrafoLv THEN "lv" ELSE "mv"
+\* the switch table: one bus-bus switch host - section (et = "b", z_ohm = 0)
+Switches(c) == IF HasSec(c) THEN <<[a |-> c.cpl.host, b |-> BusSec, closed |-> (c.cpl.state = "closed")]>> ELSE <<>>
+\* build_bus.py (_build_bus_ppc, closed bus-bus switches): the buses joined by closed bus-bus switches are fused into ONE
+\* ppc bus;  every pandapower bus of the class is mapped to it by _pd2ppc_lookups["bus"]
+FuseKey(c) == IF c.cpl.state = "closed" THEN c.cpl.host ELSE 0          \* 0: nothing fused
+FuseSet(h) == IF h = 0 THEN {} ELSE {<<h, BusSec>>}                      \* = the closed rows of Switches(c)
+Fuse(c) == FuseSet(FuseKey(c))
+MinOf(S) == CHOOSE x \in S : \A y \in S : x <= y
+NodeTab == [h \in 0..4 |-> [b \in Bus |-> MinOf(Grow(FuseSet(h), {b}))]]  \* (constants: TLC evaluates the fixpoints once)
+\* the node (fusion class, named by its smallest bus) a bus belongs to
+NodeOf(c, b) == NodeTab[FuseKey(c)][b]
+SameNode(c, a, b) == NodeOf(c, a) = NodeOf(c, b)
+
+\* ---- ext_grids and supply --------------------------------------------------------------------------------------------
+OneEg == <<[bus |-> 1, ins |-> TRUE]>>
+EgLive(c) == {k \in 1..Len(c.egs) : c.egs[k].ins}
+SlackBuses(c) == {c.egs[k].bus : k \in EgLive(c)}
 \* pd2ppc.py:196 _check_connectivity: buses not reachable from a reference bus are isolated (results NaN)
-RECURSIVE Reach(_, _)
-Reach(t, S) == LET N == S \cup {b \in Bus : \E e \in EdgesT(t) : (e[1] \in S /\ e[2] = b) \/ (e[2] \in S /\ e[1] = b)}
-               IN IF N = S THEN S ELSE Reach(t, N)
-SuppliedT == [t \in TopoNames |-> Reach(t, {SlackBus})]     \* (a constant: TLC evaluates the fixpoints once)
-Supplied(c) == SuppliedT[c.topo]
+HasSlack(c, b) == \E k \in 1..Len(c.egs) : c.egs[k].ins /\ c.egs[k].bus = b
+SuppliedTab == [t \in TopoNames |-> [h \in 0..4 |-> [s1 \in BOOLEAN |-> [s2 \in BOOLEAN |-> [s3 \in BOOLEAN |->
+                   Grow(EdgesT(t) \cup FuseSet(h), {b \in 1..3 : (b = 1 /\ s1) \/ (b = 2 /\ s2) \/ (b = 3 /\ s3)})]]]]]
+Supplied(c) == SuppliedTab[c.topo][FuseKey(c)][HasSlack(c, 1)][HasSlack(c, 2)][HasSlack(c, 3)]   \* ext_grids: buses 1..3
 
 \* ---- transformer vector group: decision of pd2ppc_zero._add_trafo_sc_impedance_zero in mode "pf_3ph" ---------------
 VgClass(vg) == CASE vg \in {"Yy", "Yd", "Dy", "Dd"} -> "open"        \* pd2ppc_zero.py:184  `continue` (no zero-seq path)
@@ -81,14 +111,31 @@ TotalVal(e, pq) == IF e.kind \in SymKinds THEN TabTotal(e, pq) * ScNum(e) ELSE S
 
 \* runpp_3ph._load_mapping (runpp_3ph.py:94-132): S[phase][typ][bus] = sum over the live elements of connection typ
 \* (runpp_3ph.py:60  active = _is_elements & (type == typ);  :122-128  _sum_by_group per bus)
+\* what ONE pandapower bus b contributes
 Term3(c, i, b, ph, typ, pq) == IF Live(c, i) /\ El(c, i).bus = b /\ El(c, i).conn = typ
                                THEN Sign(El(c, i)) * PhaseVal(El(c, i), ph, pq) ELSE 0
 RECURSIVE SabcN(_, _, _, _, _, _)
 SabcN(c, b, ph, typ, pq, n) == IF n = 0 THEN 0 ELSE Term3(c, n, b, ph, typ, pq) + SabcN(c, b, ph, typ, pq, n - 1)
-Sabc(c, b, ph, typ, pq) == SabcN(c, b, ph, typ, pq, N(c))
-Mapping(c) == [b \in Bus |-> [typ \in Conn |-> [pq \in {"p", "q"} |-> [ph \in Ph |-> Sabc(c, b, ph, typ, pq)]]]]
-\* build_bus._calc_pq_elements_and_add_on_ppc (symmetric route): PD/QD of the bus
-Term1(c, i, b, pq) == IF Live(c, i) /\ El(c, i).bus = b THEN Sign(El(c, i)) * TotalVal(El(c, i), pq) ELSE 0
+SabcBus(c, b, ph, typ, pq) == SabcN(c, b, ph, typ, pq, N(c))
+\* runpp_3ph.py:121 `bus_lookup[...]` BEFORE the per-bus sum: the solver is given, at a NODE, the sum over all the buses
+\* fused into it (the entry is kept under the node's name, the smallest bus of the class; the other buses carry 0)
+\* (lv[i] = Live(c, i), nd[i] = node of element i: evaluated once per configuration)
+Term3Node(c, lv, nd, i, n, ph, typ, pq) == IF lv[i] /\ nd[i] = n /\ El(c, i).conn = typ
+                                           THEN Sign(El(c, i)) * PhaseVal(El(c, i), ph, pq) ELSE 0
+RECURSIVE SabcNodeN(_, _, _, _, _, _, _, _)
+SabcNodeN(c, lv, nd, n, ph, typ, pq, k) == IF k = 0 THEN 0
+                                           ELSE Term3Node(c, lv, nd, k, n, ph, typ, pq) + SabcNodeN(c, lv, nd, n, ph, typ, pq, k - 1)
+LiveVec(c) == [i \in 1..N(c) |-> Live(c, i)]
+NodeVec(c) == [i \in 1..N(c) |-> NodeOf(c, El(c, i).bus)]
+\* (the same thing bus by bus: used by the model's invariant M_FusedSum)
+RECURSIVE SumBuses(_, _, _, _, _, _)
+SumBuses(c, S, ph, typ, pq, b) == IF b = 0 THEN 0 ELSE (IF b \in S THEN SabcBus(c, b, ph, typ, pq) ELSE 0) + SumBuses(c, S, ph, typ, pq, b - 1)
+Mapping(c) == LET lv == LiveVec(c)
+                  nd == NodeVec(c)
+              IN [b \in Buses(c) |-> [typ \in Conn |-> [pq \in {"p", "q"} |-> [ph \in Ph |->
+                                        SabcNodeN(c, lv, nd, b, ph, typ, pq, N(c))]]]]
+\* build_bus._calc_pq_elements_and_add_on_ppc (symmetric route): PD/QD of the ppc bus = node, the same fusion
+Term1(c, i, b, pq) == IF Live(c, i) /\ NodeOf(c, El(c, i).bus) = b THEN Sign(El(c, i)) * TotalVal(El(c, i), pq) ELSE 0
 RECURSIVE SymBusN(_, _, _, _)
 SymBusN(c, b, pq, n) == IF n = 0 THEN 0 ELSE Term1(c, n, b, pq) + SymBusN(c, b, pq, n - 1)
 SymBus(c, b, pq) == SymBusN(c, b, pq, N(c))
@@ -102,11 +149,11 @@ BalancedMap(m, S) == \A b \in S : \A typ \in Conn : \A pq \in {"p", "q"} :
                         m[b][typ][pq][1] = m[b][typ][pq][2] /\ m[b][typ][pq][2] = m[b][typ][pq][3]
 NetBalanced(c) == BalancedMap(Mapping(c), Supplied(c))
 Class(c) == IF AllSymmetric(c) THEN "balanced" ELSE "unbalanced"
-HasDelta(c, b) == \E i \in 1..N(c) : Live(c, i) /\ El(c, i).bus = b /\ El(c, i).conn = "delta"
+HasDelta(c, b) == \E i \in 1..N(c) : Live(c, i) /\ SameNode(c, El(c, i).bus, b) /\ El(c, i).conn = "delta"
 \* A delta-connected element's p_a/p_b/p_c are the powers of the branches ab/bc/ca (runpp_3ph.py:467-472, 490); the
 \* phase-to-earth powers it draws equal them only under balanced voltages.  So per PHASE nodal balance is required
-\* at a bus unless an in-service delta element sits there in an unbalanced network; the balance of the three-phase
-\* SUM is required at every supplied bus.
+\* at a node unless an in-service delta element sits on one of its buses in an unbalanced network; the balance of the
+\* three-phase SUM is required at every supplied node.  (b: any bus of the node.)
 PerPhase(c, b) == b \in Supplied(c) /\ (AllSymmetric(c) \/ ~HasDelta(c, b))
 
 \* ---- which branch terminal contributes to which bus ------------------------------------------------------------
